@@ -1882,7 +1882,11 @@ bool Node::perform_handshake(const PeerId& peer_id,
     const auto existing = handshake_state_.find(key);
     if (existing != handshake_state_.end()) {
         const auto elapsed = now - existing->second.last_attempt;
-        if (existing->second.success && elapsed < config_.handshake_cooldown) {
+        // Only a repeat of the handshake that was already validated may take the shortcut; different credentials
+        // offered inside the cooldown must go through the key and proof-of-work checks like any other handshake.
+        if (existing->second.success && elapsed < config_.handshake_cooldown
+            && existing->second.remote_public == remote_public_key
+            && existing->second.remote_pow_nonce == remote_work_nonce) {
             return true;
         }
     }
